@@ -7,8 +7,24 @@ CHECKS = {
          "trusted: go/ssa, z3 4.8.12 (+z3 5.1.0/cvc5 fallback), gosym encoder, reflect typed-cell model; operands already of the same type (toSameFuncType executed on same-typed operands); typed constants finite and not -0; frame invariant FileEnv = Outer^(Depth-1); complex division uninterpreted; strings <= 3 bytes", "DESIGN.md §5 C01"),
  "C34": ("the real Universe.addBasicTypeMethodsCTI is executed symbolically for each of the 217 (basic kind, contract method) pairs; the installed func value's signature is checked and its result proved equal to the Go operator/builtin for all operand values, including panic equivalence for integer division and string indexing/slicing.",
          "trusted: go/ssa, z3, encoder, reflect typed-cell model; method-table accessors of xtype (NumMethod/Method/GetMethods) replaced by a one-method model; container-type methods (cti_method.go) outside the claim", "DESIGN.md §5 C34"),
+ "C37": ("the real binarySearch, prefixSearch, removeCmd, Cmd.Match, Cmds.Add, Cmds.Del and Cmds.Lookup are executed symbolically on command names that are symbolic byte strings (bounded bit-vector strings) and compared with a linear-scan reference: exact name wins, unique prefix resolves, ambiguity lists exactly the candidates in order, no match is io.EOF; Add/Del are checked as one inductive step from an arbitrary sorted duplicate-free bucket (invariant preserved, other commands still resolve) and as short histories through the public API.",
+         "bounds: names <= 3 bytes (histories: <= 2 bytes), bucket size <= 3 (thorough: <= 4/5), quick tier alphabet 'a'..'c', thorough tier adds all 256 byte values; sort.Slice replaced by an insertion-sort model (trusted: returns the sorted permutation); Interp.Cmd dispatch (trim, fall-through to evaluation) outside the claim", "DESIGN.md §5 C37"),
 }
 NA = {
+ "C09": "field/method selection, method sets and type switches run on xreflect / go/types-fork / reflect object graphs with maps keyed by interfaces; there is no bounded scalar kernel and the go/ssa->SMT encoder cannot model these libraries (DESIGN.md section 6)",
+ "C11": "the behaviour is that of reflect.MakeFunc, reflect.Call and compiled standard-library callers; none of it is gomacro code the encoder can execute symbolically",
+ "C15": "the statement is about the whole parse->compile->execute pipeline over map[string]*Bind and type universes; the one local mechanism (deferred restore in DeclFunc) is too small a part to claim the property",
+ "C16": "needs the dependency sorter plus the compiler on whole declaration sets; only the graph kernel is encodable (see C17)",
+ "C20": "macro expansion is a recursive walk over arbitrary go/ast trees with reflective calls of user macros: input-sized and pointer-rich, outside what a hand-written SSA->SMT encoder reaches",
+ "C21": "quasiquote builds go/ast trees through reflect and two interpreters; no scalar kernel to encode",
+ "C23": "two ~1000-line scanners with input-length loops and Unicode tables; a differential encoding is out of reach beyond input lengths that enumeration already covers",
+ "C24": "recursive-descent parser producing go/ast heaps; input-sized",
+ "C25": "printer/parser round trip over whole files; input-sized formatting state machine with tabwriter",
+ "C29": "agreement with reflect and go/types for constructed types is about those libraries' run-time behaviour, not gomacro code the encoder can execute",
+ "C30": "the converter walks complete go/types package graphs loaded from export data",
+ "C35": "the instantiation cache and alias scopes live in the compiler's maps/universe; the comparison target is a whole re-compilation",
+ "C38": "the classic interpreter evaluates go/ast directly with reflect.Values; every step is reflection",
+ "C39": "the output is a printed file compiled by the Go toolchain",
 }
 props=[json.loads(l) for l in open('/verif/properties.jsonl')]
 checks=[]
